@@ -3,7 +3,7 @@
    Model: coq/C38/Model.v (hand transcription of pkg/pdfcpu/stamp.go).  Content streams are byte lists;
    the drawing of the watermark itself (form XObject, fonts, images) is not modelled. *)
 From Coq Require Import List NArith Bool.
-From PV Require Import C38.Model C38.ProofsIndex C38.ProofsRemove C38.ProofsPage C38.ProofsDoc.
+From PV Require Import C38.Model C38.ProofsIndex C38.ProofsRemove C38.ProofsPage C38.ProofsDoc C38.ProofsSeq.
 Import ListNotations.
 Open Scope N_scope.
 
@@ -89,6 +89,45 @@ Theorem C38_doc_detect : forall mtx x y onTop d sel,
 Proof. exact doc_detect. Qed.
 Print Assumptions C38_doc_detect.
 
+(* 7. One stream with ANY number of watermark blocks at any positions (items = segments and blocks):
+      if the stream without its blocks is marker-free, removeArtifacts removes every block, returns the
+      bare segments, and reports the resource names of all blocks in order. *)
+Theorem C38_stream_all_blocks_removed : forall s,
+  noocc marker (erase s) -> ok_items s = true ->
+  remove_artifacts (render s)
+  = Some {| rm_found := has_blk s; rm_content := erase s; rm_gs := gs_of s; rm_fm := fm_of s |}.
+Proof. exact remove_artifacts_items. Qed.
+Print Assumptions C38_stream_all_blocks_removed.
+
+(* 8. Sequences of AddWatermarks calls on one page, then one RemoveWatermarks.
+      wrap_equivN = equal up to white space and nested q ... Q pairs (one pair per on-top call).
+      FULL STATEMENT (refuted by C38_stamp_left_behind_refuted): for every non-empty sequence of adds,
+      mixing stamps and watermarks in any order, on any artifact-free page.
+      PROVED: for every sequence on pages with at most one content stream, and on multi-stream pages for
+      every sequence in which no call follows an on-top call (seq_shape: all calls but the last are
+      background watermarks) - the exact complement of the defect class. *)
+Theorem C38_page_remove_undoes_add_sequence_partial : forall adds ct,
+  forallb wadd_ok adds = true -> clean_page ct = true -> adds <> [] ->
+  (single_stream ct || seq_shape adds) = true ->
+  exists found ct' g f,
+    remove_page (add_seq (map wadd_bytes adds) ct) = POk found ct' g f
+    /\ wrap_equivN (page_bytes ct) (page_bytes ct')
+    /\ clean_page ct' = true
+    /\ detect_page ct' = false.
+Proof. exact page_sequence_roundtrip. Qed.
+Print Assumptions C38_page_remove_undoes_add_sequence_partial.
+
+(* 9. The defect: on a two-stream page, stamp-then-watermark and stamp-then-stamp leave the first stamp
+      in a middle stream after removal, and detection then reports no watermark. *)
+Theorem C38_stamp_left_behind_refuted :
+  clean_page two_streams = true /\ forallb wadd_ok seq_top_bg = true /\ forallb wadd_ok seq_top_top = true /\
+  (exists ct' g f, remove_page (add_seq (map wadd_bytes seq_top_bg) two_streams) = POk true ct' g f
+                   /\ clean_page ct' = false /\ detect_page ct' = false) /\
+  (exists ct' g f, remove_page (add_seq (map wadd_bytes seq_top_top) two_streams) = POk true ct' g f
+                   /\ clean_page ct' = false /\ detect_page ct' = false).
+Proof. exact stamp_left_behind. Qed.
+Print Assumptions C38_stamp_left_behind_refuted.
+
 (* non-vacuity: the hypotheses are satisfiable, both placements, single and multi stream *)
 Example C38_nonvacuous :
   let mtx := [49; 46; 48; 32; 45; 48; 46; 53] in
@@ -98,5 +137,7 @@ Example C38_nonvacuous :
   /\ pre [true; false; true] [true; true; true]
        [ {| pg_res := true; pg_ct := CStream [110] |}; {| pg_res := true; pg_ct := CArray [[110]] |};
          {| pg_res := false; pg_ct := CNone |} ] = true
-  /\ wm_ok [69] [49] [49] = false.
+  /\ wm_ok [69] [49] [49] = false
+  /\ seq_shape [(false, (mtx, [49], [49])); (false, (mtx, [50], [50])); (true, (mtx, [51], [51]))] = true
+  /\ seq_shape seq_top_bg = false.
 Proof. vm_compute. repeat split. Qed.
